@@ -126,6 +126,36 @@ def ro_check(kind, setup, ops, scratch):
                 dd = L.first_difference(["", "x;" + vt], ["", "x;" + ut], OBS, [op])
                 return ("ro-live", "set-up [%s], %d reads through read_only(), then DIRECTLY on the underlying store: [%s]: the view reads %s, "
                         "the underlying store %s" % (L.show_hist(setup), len(ops), L.show_hist(ops[:i + 1]), dd[0], dd[1])), vs, us
+        # ... also for FINISHED items (metadata with status 'ready', what evaluate_and_save leaves): read through the view, replaced and
+        # removed by the owner, read again
+        if kind in ("mem", "file", "mount-file"):
+            kk = K("a/ready.txt")
+            try:
+                u.store(kk, b"first", {L.USER_FIELD: "u1", "status": "ready"})
+                view.get_metadata(kk), view.get_bytes(kk)
+                u.store(kk, b"second, longer", {L.USER_FIELD: "u2", "status": "ready"})
+                a, b = view.get_metadata(kk), u.get_metadata(kk)
+                pick = lambda m: (m.get("fileinfo", {}).get("size"), m.get("fileinfo", {}).get("md5"), m.get(L.USER_FIELD), m.get("status"))
+                if pick(a) != pick(b):
+                    return ("ro-live", "set-up [%s]: the owner replaced the finished item 'a/ready.txt'; metadata through the view (size, md5, user, status) "
+                            "%r, from the underlying store %r" % (L.show_hist(setup), pick(a), pick(b))), vs, us
+                u.remove(kk)
+                ra, rb = L.tf(lambda: view.contains(kk)), L.tf(lambda: u.contains(kk))
+                try:
+                    view.get_metadata(kk)
+                    ma = "metadata"
+                except Exception as ex:
+                    ma = L.err(ex)
+                try:
+                    u.get_metadata(kk)
+                    mb = "metadata"
+                except Exception as ex:
+                    mb = L.err(ex)
+                if (ra, ma) != (rb, mb):
+                    return ("ro-live", "set-up [%s]: the owner removed the finished item 'a/ready.txt'; through the view contains/get_metadata give %r, the "
+                            "underlying store %r" % (L.show_hist(setup), (ra, ma), (rb, mb))), vs, us
+            except Exception:
+                pass          # the set-up left a file where the directory 'a' is needed: nothing to compare
         # mounting through the view: the composite it hands out must not open a way around the view
         import liquer.store as S
         raw0, keys0 = L.raw_snapshot(u), sorted(u.keys())
